@@ -810,6 +810,35 @@ def add_poison_gadget(rnd, spec):
     return q_
 
 
+def add_big_range_gadget(rnd, spec):
+    """a range of more than a thousand cells of which a handful are in use (a sum over a column
+    that was reserved "to be safe"): one member is blank in the workbook and is also read on its
+    own by another formula, so that it gets into the model some other way than through the
+    range.  Sheet Big, formulas in row 50 of the first formula sheet."""
+    sheet = next(s_ for s_ in spec['sheets'] if s_ != spec.get('data_sheet'))
+    big = 'Big'
+    if big in spec['sheets']:
+        return
+    spec['sheets'].append(big)
+    n = rnd.choice((1040, 1100, 1500))
+    k, m = sorted(rnd.sample(range(2, n), 2))
+    top, blank, mid, last = mk(big, 1, 1), mk(big, k, 1), mk(big, m, 1), mk(big, n, 1)
+    spec['cells'].append({'a': top, 'v': rnd.choice((1, 2, 5, 0.5))})
+    spec['cells'].append({'a': blank, 'v': None})
+    spec['cells'].append({'a': mid, 'v': rnd.choice((3, 10, -4, 'txt'))})
+    spec['cells'].append({'a': last, 'v': rnd.choice((7, 1.5))})
+    spec.setdefault('pinned', []).append(last)
+    members = [top, blank, mid, last]
+    tot, solo, both = mk(sheet, 50, 1), mk(sheet, 50, 2), mk(sheet, 50, 3)
+    fn = rnd.choice(('SUM', 'SUM', 'COUNT', 'MAX'))
+    spec['cells'].append({'a': tot, 'f': f'={fn}({big}!A1:A{n})+{big}!A1', 'p': list(members),
+                          'd': []})
+    spec['cells'].append({'a': solo, 'f': f'={big}!A{k}+1', 'p': [blank], 'd': []})
+    spec['cells'].append({'a': both, 'f': '=A50+B50', 'p': [tot, solo], 'd': []})
+    spec.setdefault('gadget', []).extend([tot, solo, both, blank])
+    spec['big_range'] = f'{big}!A1:A{n}'
+
+
 def add_table_gadget(rnd, spec):
     """the same small table at the same place on up to two sheets; the formulas of its last
     column and a total next to it are written with structured references ([@qty], Tbl0[total]).
